@@ -156,7 +156,8 @@ class SDVRPEnv(CVRPEnv):
             used_cap += d
             used_cap[a == 0] = 0
             a_prev = a
-        assert (demands == 0).all(), "All demand must be satisfied"
+        # the depot column holds the refill -capacity, which is only zeroed by a depot visit: check customers only
+        assert (demands[:, 1:] == 0).all(), "All demand must be satisfied"
 
     def _make_spec(self, generator):
         """Make the observation and action specs from the parameters."""
